@@ -73,7 +73,10 @@ def run(cases, tier='quick', seed=0):
     class Live:
         __name__ = 'harness.live'
         IMPORTS, CHECK_FN, BAD_TERM = live.IMPORTS, live.CHECK_FN, live.BAD_TERM
-        run_impl, oracle = staticmethod(live.run_impl), staticmethod(live.oracle)
+        run_impl = staticmethod(live.run_impl)
+        # handed-out states are the committed hierarchy; every update due at an instant is committed whatever the
+        # listing order (also when another update of the batch deletes its process)
+        oracle = staticmethod(lambda c, ob, rng: live.oracle(c, ob, rng) + live.oracle_inflight(c, ob, rng))
         nontrivial, stat_key = staticmethod(live.nontrivial), staticmethod(live.stat_key)
         render = staticmethod(live.render)     # the rebuild points of _send_updates / run_steps vs Model/Views.v
     return common.merge_streams(cases, [
